@@ -271,6 +271,19 @@ def observe(vk, p, tmpdir=None):
         return {"status": "build-exn", "exn": out[1], "msg": out[2]}
     g = out[1]
     kind, N = p["kind"], p["N"]
+    decoy = None
+    if kind in BLOC_KINDS and p["seed"] % 3 == 0:
+        # a second generator of the same class, same bloc names, other candidate names, built AFTER the one under test
+        # and kept alive while that one samples: a generator must not share tables with its siblings (state kept on
+        # the class instead of the instance shows up only in this construct-all-then-sample pattern)
+        import copy
+        p2 = copy.deepcopy(p)
+        ren = {c: f"{c}~" for b in p2["blocs"] for c in p2["slates"][b]}
+        p2["slates"] = {b: [ren[c] for c in p2["slates"][b]] for b in p2["blocs"]}
+        st_py, st_np = random.getstate(), np.random.get_state()
+        d = run_impl(lambda: build(vk, p2, tmpdir))
+        random.setstate(st_py); np.random.set_state(st_np)
+        decoy = d[1] if d[0] == "ok" else None
     log = GenLog()
     seeds = []
 
@@ -298,6 +311,7 @@ def observe(vk, p, tmpdir=None):
                 return g.generate_profile(N, by_bloc=True)
             return g.generate_profile(N)
     out = run_impl(call)
+    del decoy
     if out[0] != "ok":
         return {"status": "run-exn", "exn": out[1], "msg": out[2], "gen": g, "log": log.calls}
     res = {"status": "ok", "gen": g, "log": log.calls, "seeds": seeds}
